@@ -157,12 +157,16 @@ pub fn chal_of(recs: &[Rec], id: u64) -> Option<Chal> {
     Some(Chal { y: c[0].1, z: c[1].1, es: c[2..c.len() - 1].iter().map(|x| x.1).collect(), e: c[c.len() - 1].1 })
 }
 
-/// batch weights: the 64-byte draws of the RNG built from the weight transcript
+/// batch weights: the 64-byte draws of the RNG built from the weight transcript. Recognised structurally (not by
+/// label, which a harmless rename may change): the only RNG instance whose forked history contains no challenge and
+/// no witness rekeying — member RNGs are forked after challenges were drawn, prover RNGs are rekeyed.
 pub fn weights_of(recs: &[Rec]) -> Vec<Scalar> {
     recs.iter()
-        .filter_map(|r| match (&r.ev, r.hist.first()) {
-            (Ev::Draw { out }, Some(Ev::Append { label, msg }))
-                if out.len() == 64 && label == b"dom-sep" && msg == b"Bulletproofs+ verifier weights" =>
+        .filter_map(|r| match &r.ev {
+            Ev::Draw { out }
+                if out.len() == 64
+                    && !r.hist.iter().any(|e| matches!(e, Ev::Challenge { .. } | Ev::Rekey { .. }))
+                    && r.hist.iter().any(|e| matches!(e, Ev::Finalize { .. })) =>
             {
                 Some(wide(out))
             },
